@@ -452,3 +452,89 @@ impl fmt::Display for RecvError {
         "receiving from a closed channel".fmt(f)
     }
 }
+
+/// Verification hook: the mailbox queue on its own, with `usize` messages.
+#[cfg(nexosim_verif)]
+pub(crate) mod verif {
+    use recycle_box::RecycleBox;
+
+    use super::queue::{MessageBorrow, PopError, PushError, Queue};
+
+    pub struct VQueue {
+        queue: Box<Queue<usize>>,
+        // The borrow refers to `queue`, which is heap-allocated and outlives it
+        // (the borrow is always released before the queue is dropped).
+        borrow: Option<MessageBorrow<'static, usize>>,
+    }
+
+    impl VQueue {
+        pub fn new(capacity: usize) -> Self {
+            Self {
+                queue: Box::new(Queue::new(capacity)),
+                borrow: None,
+            }
+        }
+        /// 0: ok, 1: full, 2: closed.
+        pub fn push(&self, value: usize) -> u8 {
+            match self.queue.push(|b| RecycleBox::recycle(b, value)) {
+                Ok(()) => 0,
+                Err(PushError::Full(_)) => 1,
+                Err(PushError::Closed) => 2,
+            }
+        }
+        /// Pops a message and keeps it borrowed: `Ok(value)`, `Err(1)`: empty,
+        /// `Err(2)`: closed, `Err(3)`: a message is already borrowed.
+        pub fn pop(&mut self) -> Result<usize, u8> {
+            if self.borrow.is_some() {
+                return Err(3);
+            }
+            // Safety: there is a single consumer (`&mut self`).
+            match unsafe { self.queue.pop() } {
+                Ok(b) => {
+                    let v = *b;
+                    let b: MessageBorrow<'static, usize> = unsafe { std::mem::transmute(b) };
+                    self.borrow = Some(b);
+                    Ok(v)
+                }
+                Err(PopError::Empty) => Err(1),
+                Err(PopError::Closed) => Err(2),
+            }
+        }
+        /// Pops a message and releases it at once. The caller must be the only
+        /// consumer and must not hold a borrowed message.
+        pub fn pop_release(&self) -> Result<usize, u8> {
+            match unsafe { self.queue.pop() } {
+                Ok(b) => Ok(*b),
+                Err(PopError::Empty) => Err(1),
+                Err(PopError::Closed) => Err(2),
+            }
+        }
+        /// Releases the borrowed message, if any.
+        pub fn release(&mut self) -> bool {
+            self.borrow.take().is_some()
+        }
+        pub fn close(&self) {
+            self.queue.close()
+        }
+        pub fn is_closed(&self) -> bool {
+            self.queue.is_closed()
+        }
+        pub fn len(&self) -> usize {
+            self.queue.len()
+        }
+        pub fn raw(&self) -> (usize, usize, Vec<usize>) {
+            self.queue.verif_raw()
+        }
+    }
+
+    impl Drop for VQueue {
+        fn drop(&mut self) {
+            self.borrow.take();
+        }
+    }
+
+    // The queue is used by one consumer and any number of producers; `push`,
+    // `close`, `len` take `&self`.
+    unsafe impl Sync for VQueue {}
+    unsafe impl Send for VQueue {}
+}
